@@ -67,7 +67,7 @@ theorem recompose16 (n : Nat) (h : n < 65536) : n / 256 % 256 * 256 + n % 256 = 
 abbrev dec (bd : BDec) (bs : Bytes) := decodeWith expectedGuards expectedFrameCap bd bs
 
 macro "rt_simp" : tactic => `(tactic|
-  simp [dec, decodeWith, rdBE, expectedFrameCap, body, findGuard, expectedGuards, guardViolated,
+  simp [dec, decodeWith, rdBE, expectedFrameCap, body, bodyExt, findGuard, expectedGuards, guardViolated,
         be32, be16, frame])
 
 macro "rt_fin" : tactic => `(tactic|
@@ -329,7 +329,7 @@ theorem rt_metadata (rest : Bytes) (t p tot : Nat) (data : Bytes)
   have hm := decMeta_enc t p tot ht hp htot data
   simp only [dec, decodeWith, List.cons_append, List.nil_append, List.length_cons, List.take_succ_cons,
     List.take_zero, List.drop_succ_cons, List.drop_zero, hr, expectedFrameCap, payload]
-  simp [body, findGuard, expectedGuards, guardViolated, leanBDec]
+  simp [body, bodyExt, findGuard, expectedGuards, guardViolated, leanBDec]
   rw [if_neg (by omega), if_neg (by omega), if_neg (by omega), if_neg (by omega)]
   have htk : List.take ((encDict (metaDict t p tot)).length + data.length)
       (encDict (metaDict t p tot) ++ (data ++ rest)) = encDict (metaDict t p tot) ++ data := by
@@ -584,7 +584,7 @@ theorem rt_pex (rest : Bytes) (a d : List PexPeer) (ha : WFpexList a) (hd : WFpe
   rw [List.append_nil] at hm
   simp only [dec, decodeWith, List.cons_append, List.nil_append, List.length_cons, List.take_succ_cons,
     List.take_zero, List.drop_succ_cons, List.drop_zero, hr, expectedFrameCap, payload]
-  simp [body, findGuard, expectedGuards, guardViolated, leanBDec]
+  simp [body, bodyExt, findGuard, expectedGuards, guardViolated, leanBDec]
   rw [if_neg (by omega), if_neg (by omega), if_neg (by omega)]
   rw [hm]
   simp only [v4first]
@@ -763,7 +763,7 @@ theorem rt_ext0 (rest : Bytes) (e : Ext0) (h : WFext0 e)
   rw [List.append_nil] at hm
   simp only [dec, decodeWith, List.cons_append, List.nil_append, List.length_cons, List.take_succ_cons,
     List.take_zero, List.drop_succ_cons, List.drop_zero, hr, expectedFrameCap, payload]
-  simp [body, findGuard, expectedGuards, guardViolated, leanBDec]
+  simp [body, bodyExt, findGuard, expectedGuards, guardViolated, leanBDec]
   rw [if_neg (by omega), if_neg (by omega), if_neg (by omega)]
   rw [hm]
   rw [if_neg (by omega)]
